@@ -4,6 +4,12 @@ import json, os, sys
 ROOT = os.path.dirname(os.path.dirname(os.path.abspath(__file__)))
 
 CHECKS = {
+ "C04": ("exploration", "runtime differential against a multi-version ordered map replayed from the ledger of acknowledged commits (one model per index, with the same mapper functions the harness gave the store): quiescent comparison of every read API after WaitForIndexingUpto, and concurrent reads judged against the window of states they may see",
+         "Held on the configurations executed: 20 (index layout x MaxBulkSize in {1,2,3,8,64}) pairs quick (150 configurations thorough) with plain, prefixed, key-mapped and value-mapped (injective and not) indexes, tiny flush/sync thresholds, minimal node size, 1-8 node caches, small buffered-data limits, 1-8 writers, overwrites / deletes / fixed expiries / non-indexable / empty values / max-length keys, flush, compaction, snapshots and close/reopen interleaved, hook delays in the indexer; Get, GetWithFilters, GetBetween, GetWithPrefix, History, snapshots and key readers over all spec combinations compared on value, tx id, revision and metadata.",
+         "Expiry uses the two fixed instants (2001 expired / 2100 not); a returned error alone is never a violation; pkg/database reads are covered by C06.", "DESIGN.md 2/C04"),
+ "C09": ("fault_enumeration", "runtime fault enumeration: every single bit (and field-targeted, multi-bit and same-size splice alterations) of the located tx-log record and value-log bytes of pristine stores; each altered copy is opened and read through every integrity-checked path in a child process; oracle = error or exactly the original content, no panic, no confirmed hang",
+         "Held on the alterations executed: 6 stores quick / 12 thorough (plain, flate, gzip, lzw, zlib value logs, embedded values, header v0/v1, tx and KV metadata, 1-3 value logs, several chunks per log): all single bits of two stores plus all length/offset/count fields and value extents of the others, ~40 k cases quick (~470 k thorough); Open, ReadTx, ReadTxHeader, ReadTxEntry, ReadValue, ExportTx, TxReader asc/desc, LinearProof, DualProof, then Get/History/Resolve after the index is rebuilt from the log.",
+         "(vOff, vLen) are a locator judged where they are used; an export that degrades to digests plus the truncation flag counts as detection; memory is judged by C16 (calls with a corrupted length above 16 MiB are not made); file headers, commit log, hash tree and index files are outside C09's scope.", "DESIGN.md 2/C09"),
  "C07": ("exploration", "runtime monitoring of replication: store-to-store delivery schedules (out of order, duplicated, retried, restarts, discards, forks) with equality of histories/answers/proofs at quiescence and rejection-without-effect of ~20 k structure-aware altered or non-extending exports; pkg/database sync replication with the harness as the network and online ack-count / replica-not-ahead monitors",
          "Held on the schedules executed: L1 60 schedules x 80 txs quick (2000 thorough) incl. header v0/v1, tx and KV metadata, empty and truncated values, concurrent ReplicateTx inside the window, replica close/reopen, DiscardPrecommittedTxsSince, forked primaries; L2 40 schedules quick (800 thorough) of one primary with syncAcks=K and M>=K replicas with delayed, duplicated, reordered deliveries and replica restarts.",
          "The real TxReplicator over loopback (L3) is not driven; an altered export that is accepted but decodes to the primary's own tx is benign.", "DESIGN.md 2/C07"),
